@@ -4,9 +4,9 @@ Extracts from bec2format/configid.py, without retyping anything:
   * UNKNOWN                                   -> CFGID_UNKNOWN : N
   * the two string-literal patterns passed to re.match inside ConfigId.create_from_str,
     in source order                           -> CFGID_PATTERN_NUMERIC, CFGID_PATTERN_NAMEONLY
-  * the set of string constants of ConfigId.cfgid_str (the two format strings)
+  * the set of template string constants of ConfigId.cfgid_str (the two format strings)
                                               -> CFGID_CFGIDSTR_STRINGS : list (list N), sorted
-  * the set of string constants of ConfigId.__str__ (name-only format, separator, "")
+  * the set of string constants of ConfigId.__str__ (name-only format; only template strings, i.e. those with a replacement field, are tied)
                                               -> CFGID_STR_STRINGS : list (list N), sorted
 
 Strings are lists of code points.  The hand-written matcher/printer of coq/Model/ConfigId.v
@@ -46,7 +46,8 @@ def _patterns(tree):
 
 
 def _string_constants(fn):
-    """set of string constants of a function body (docstring excluded), sorted"""
+    """set of the template string constants (those containing a replacement field "{" or "%") of a function
+    body, sorted; plain strings such as keyword names of a **dict call are not format data"""
     body = list(fn.body)
     if body and isinstance(body[0], ast.Expr) and isinstance(body[0].value, ast.Constant) \
             and isinstance(body[0].value.value, str):
@@ -54,7 +55,7 @@ def _string_constants(fn):
     out = set()
     for st in body:
         for n in ast.walk(st):
-            if isinstance(n, ast.Constant) and isinstance(n.value, str):
+            if isinstance(n, ast.Constant) and isinstance(n.value, str) and ("{" in n.value or "%" in n.value):
                 out.add(n.value)
     return sorted(out)
 
